@@ -402,7 +402,7 @@ func c05Ladder(c *Ctx, idx int) {
 func init() {
 	Register(&Property{
 		ID:            "C05",
-		Rule:          "decimal operands (a 60-value boundary pool squared x 12 operators - exhaustive; seeded operands of 1..34 (sometimes 40) significant digits in nines/carry/tie/random patterns with exponents across the decimal128 range, cancelling pairs) through + - * / // % (all spellings), unary signs, comparisons, sum/avg/abs/ceil/floor/max/min/sort/to_number, each travelling as json.Number in the document, as a literal and as decimal128 values; outcomes compared with exact big.Rat arithmetic: equal when the exact result has <= 34 significant digits, within one unit of the 34th digit otherwise, not-a-number error for division by zero and overflow, never an infinity/NaN value; ladder stream: one 20..34-digit number text fed prefix by prefix (shortest first, then longest first) through the same operators within one process, so that every text is evaluated right after its own prefixes (text-keyed memo tables, reused buffers); non-trivial = the model decides the case; distinct by (expression, operands, route); long-sums stream: sum/avg over 2..1500 numbers in episodes of different magnitudes (10^-6000..10^6000), every left-to-right running total exact; every tenth long-sums case has 4095..70000 elements (sizes at and around 2^12..2^16; thorough also 2^17+1, 2^18+1, 10^6+1); long-number-texts stream: one number text of 6200..70000 bytes per case, 11 kinds: padded texts that denote 1, 0.5, 2500, 10, 1234.5, 0 must compute exactly; texts beyond the decimal range must give an error (or zero when tiny), never an unrelated finite number - the witnesses of the decimal128 scanner defect are open known findings",
+		Rule:          "decimal operands (a 60-value boundary pool squared x 12 operators - exhaustive; seeded operands of 1..34 (sometimes 40) significant digits in nines/carry/tie/random patterns with exponents across the decimal128 range, cancelling pairs) through + - * / // % (all spellings), unary signs, comparisons, sum/avg/abs/ceil/floor/max/min/sort/to_number, each travelling as json.Number in the document, as a literal and as decimal128 values; outcomes compared with exact big.Rat arithmetic: equal when the exact result has <= 34 significant digits, within one unit of the 34th digit otherwise, not-a-number error for division by zero and overflow, never an infinity/NaN value; ladder stream: one 20..34-digit number text fed prefix by prefix (shortest first, then longest first) through the same operators within one process, so that every text is evaluated right after its own prefixes (text-keyed memo tables, reused buffers); non-trivial = the model decides the case; distinct by (expression, operands, route); long-sums stream: sum/avg over 2..1500 numbers in episodes of different magnitudes (10^-6000..10^6000), every left-to-right running total exact; every tenth long-sums case has 4095..70000 elements (sizes at and around 2^12..2^16; thorough also 2^17+1, 2^18+1, 10^6+1); long-number-texts stream: one number text of 6200..70000 bytes per case, 11 kinds: padded texts that denote 1, 0.5, 2500, 10, 1234.5, 0 must compute exactly; texts beyond the decimal range must give an error (or zero when tiny), never an unrelated finite number - the witnesses of the decimal128 scanner defect are open known findings; rounding-neighbours stream: abs / ceil / floor / unary minus / // 1 / comparisons on b +- {.5, .25, .75, .000000000001, .999999999999} for every boundary b of the shared pool, as json.Number and decimal128",
 		MinNontrivial: 2000,
 		Streams: []Stream{
 			{Name: "lists", N: func(c *Ctx) int { return len(c05Canaries) + len(c05ToNumberList()) }, Run: c05Lists, Exhaustive: true},
